@@ -659,6 +659,27 @@ func (x *btCtx) checkCowPrimitives(rel string) {
 				}
 			}
 		}
+		// a node handed to the free list is empty: both its items and its children were truncated to 0 on that
+		// path. A recycled node that still points at children starts its next life with a stale child.
+		for _, t := range traces {
+			for i, e := range t.Events {
+				if !(e.Kind == EvCall && e.Callee != nil && e.Callee.Name() == "freeNode" && recvNamedName(e.Callee) == "FreeList") {
+					continue
+				}
+				cleared := map[string]bool{}
+				for _, y := range t.Events[:i] {
+					if y.Kind == EvCall && y.Callee != nil && y.Callee.Name() == "truncate" && len(y.Args) == 2 && isIntConst(y.Args[1], 0) {
+						if a := y.Args[0]; a.Kind == KFieldAddr && a.Field != nil && a.Args[0].Key() == t.Params[1].Key() {
+							cleared[a.Field.Name()] = true
+						}
+					}
+				}
+				if !(cleared["items"] && cleared["children"]) && ok {
+					ok = false
+					c.violated("C03.cow-primitives", "(*copyOnWriteContext).freeNode", e.Pos, "a node is put on the free list without its items and its children having been truncated on this path: a recycled node keeps stale children (or items) and the next split or copy that reuses it builds them into the tree", c.witness(t, i)...)
+				}
+			}
+		}
 		if ok && n > 0 {
 			c.holds("C03.cow-primitives", "(*copyOnWriteContext).freeNode", fn.Pos(), "clears only nodes of its own context")
 		}
